@@ -48,7 +48,7 @@ ASSUMPTIONS = [
     "truncation is not modelled: the buffer only sees the 'done' field, as in train_off_policy",
 ]
 REQUIRED_COUNTERS = ["nstep_rows_checked", "alignment_rows_compared", "rows_with_terminal_in_window", "paired_batches_checked"]
-CASE_TIMEOUT_S = 300
+CASE_TIMEOUT_S = 1800  # no blocking operation exists in a case; generous because a loaded host stalled 40 ms cases for > 300 s
 
 GAMMAS = [0.0, 0.5, 0.9, 1.0]
 SITE_FUSE = "MultiStepReplayBuffer._get_n_step_info"
